@@ -81,6 +81,11 @@ def oracle(suite, case, impl):
         k = op[0]
         if res[0] != "OK":
             continue
+        if k == 7:
+            # close_balance pays nothing: whatever the position still owed is forgiven; only dust may be
+            pa, pl = pos.get((op[1], op[2]), (0, 0))
+            if pl * bank["lsv"] >= (THR + 1) * ONE:
+                return {"key": "close-forgives-debt", "what": f"close_balance closed a position owing {pl * bank['lsv']}/2^96 tokens (more than the 0.0001 dust)"}
         if k in (1, 2, 3, 4, 5, 6, 8, 9):
             a_i, b_i, amt = op[1], op[2], op[3]
             key = (a_i, b_i)
